@@ -119,16 +119,23 @@ fn line_of<S: Shape>(pos: usize) -> usize {
 /// after an empty match.  A match (s,e) covers the lines of bytes s..e (for an
 /// empty match: the line containing s; an empty match at the very end of an
 /// input that ends in a terminator lies on no line).
-fn ref_selected<S: Shape>(m: &SpanTableMatcher) -> [bool; MAXL] {
+fn ref_selected<S: Shape>(m: &SpanTableMatcher) -> ([bool; MAXL], bool) {
     let n = S::HAY.len();
     let mut sel = [false; MAXL];
     let mut pos = 0usize;
+    // end of the last line covered by the previous match; a later match that
+    // starts before it "straddles" (starts inside already matched lines)
+    let mut covered_end = 0usize;
+    let mut straddle = false;
     let mut s = 0;
     while s <= MAXN {
         // one pass over start positions suffices: matches are found in
         // increasing start order and `pos` only moves forward
         if s <= n && s >= pos && m.e[s] != NONE {
             let e = m.e[s];
+            if s < covered_end {
+                straddle = true;
+            }
             // lines covered
             if e > s {
                 let l0 = line_of::<S>(s);
@@ -140,10 +147,12 @@ fn ref_selected<S: Shape>(m: &SpanTableMatcher) -> [bool; MAXL] {
                     }
                     i += 1;
                 }
+                covered_end = S::LSTART[l1 + 1];
                 pos = e;
             } else {
                 if s < n {
                     sel[line_of::<S>(s)] = true;
+                    covered_end = S::LSTART[line_of::<S>(s) + 1];
                 } else if n > 0 && S::LSTART[S::NL] == n && !ends_with_term::<S>() {
                     // empty match at the end of an unterminated last line
                     sel[S::NL - 1] = true;
@@ -153,7 +162,7 @@ fn ref_selected<S: Shape>(m: &SpanTableMatcher) -> [bool; MAXL] {
         }
         s += 1;
     }
-    sel
+    (sel, straddle)
 }
 
 fn ends_with_term<S: Shape>() -> bool {
@@ -216,42 +225,153 @@ fn multiline_model<S: Shape>(sel_pat: &[bool; MAXL], cfg: &Cfg) -> RecSink {
     out
 }
 
-fn c13_body<S: Shape>(cfg: Cfg, lookbehind: bool) {
-    let matcher = SpanTableMatcher::any::<S>(lookbehind);
-    let searcher = build_searcher::<S>(&cfg, true);
-    let mut sink = RecSink::new(S::HAY);
-    let r = MultiLine::new(&searcher, &matcher, S::HAY, &mut sink).run();
-    assert!(r.is_ok(), "search returns Ok");
-    let sel = ref_selected::<S>(&matcher);
-    let want = multiline_model::<S>(&sel, &cfg);
-    assert_log_is_model(&sink, &want, true, evcap::<S>());
-    kani::cover!(sink.n >= 3, "reach-end");
+/// decode table number `t` (mixed radix: position s has n-s+2 choices: none,
+/// or an end in s..=n); returns None when more than `max_set` entries are set
+fn table_from_index(n: usize, mut t: usize, max_set: usize) -> Option<[usize; MAXN + 1]> {
+    let mut e = [NONE; MAXN + 1];
+    let mut set = 0;
+    let mut s = 0;
+    while s <= MAXN {
+        if s <= n {
+            let radix = n - s + 2;
+            let d = t % radix;
+            t /= radix;
+            if d > 0 {
+                e[s] = s + d - 1;
+                set += 1;
+            }
+        }
+        s += 1;
+    }
+    if set > max_set {
+        None
+    } else {
+        Some(e)
+    }
+}
+
+fn table_count(n: usize) -> usize {
+    let mut c = 1usize;
+    let mut s = 0;
+    while s <= n {
+        c *= n - s + 2;
+        s += 1;
+    }
+    c
+}
+
+const C13_CFGS: [(bool, usize, usize, bool); 5] =
+    [(false, 0, 0, false), (false, 1, 1, false), (true, 1, 1, false), (true, 0, 0, false), (false, 0, 0, true)];
+
+/// Multi-line strategy end to end.  A symbolic span table does not terminate
+/// (DESIGN.md 7.1), so the table is enumerated in-harness: EVERY table of the
+/// shape when it has <= 3 bytes, every table with at most `max_set` match
+/// starts otherwise; x 5 configurations (invert, contexts, passthru); line
+/// numbering symbolic.  `lookbehind`: for every resumption point p > 0 also
+/// every value of E0[p] (the pattern's answer if p were start-of-haystack).
+/// `ks`: additionally stop (Some(false)) / fail (Some(true)) at every sink call.
+fn c13_enum<S: Shape>(max_set: usize, lookbehind: bool, ks: Option<bool>) {
+    let n = S::HAY.len();
+    let mut cfg = Cfg { a: 0, b: 0, invert: false, passthru: false, lnum: kani::any(), stop_nm: false };
+    let mut searcher = build_searcher::<S>(&cfg, true);
+    let total = table_count(n);
+    let mut seen_match = false;
+    let mut t = 0;
+    while t < total {
+        if let Some(e) = table_from_index(n, t, max_set) {
+            // look-behind variants: one alternative E0 value at one position
+            let nvar = if lookbehind { 1 + n * (n + 2) } else { 1 };
+            let mut var = 0;
+            while var < nvar {
+                let mut e0 = e;
+                let mut skip = false;
+                if var > 0 {
+                    let p = 1 + (var - 1) / (n + 2);
+                    let d = (var - 1) % (n + 2);
+                    if p > n || (d > 0 && p + d - 1 > n) {
+                        skip = true;
+                    } else {
+                        e0[p] = if d == 0 { NONE } else { p + d - 1 };
+                        if e0[p] == e[p] {
+                            skip = true;
+                        }
+                    }
+                }
+                if !skip {
+                    let matcher = SpanTableMatcher { n, e, e0, used_e0: std::cell::Cell::new(false) };
+                    let (sel, straddle) = ref_selected::<S>(&matcher);
+                    let mut c = 0;
+                    while c < C13_CFGS.len() {
+                        let (inv, a, b, pt) = C13_CFGS[c];
+                        cfg.invert = inv;
+                        cfg.a = a;
+                        cfg.b = b;
+                        cfg.passthru = pt;
+                        searcher.config.invert_match = inv;
+                        searcher.config.after_context = a;
+                        searcher.config.before_context = b;
+                        searcher.config.passthru = pt;
+                        let want = multiline_model::<S>(&sel, &cfg);
+                        let mut sink = RecSink::new(S::HAY);
+                        let r = MultiLine::new(&searcher, &matcher, S::HAY, &mut sink).run();
+                        assert!(r.is_ok(), "search returns Ok");
+                        if inv && straddle {
+                            // role split for a known finding (see known-findings.json)
+                            if !log_is_model(&sink, &want, evcap::<S>()) {
+                                assert!(false, "inverted multi-line search: a match that starts inside the lines covered by the previous match is lost");
+                            }
+                        } else {
+                            assert_log_is_model(&sink, &want, true, evcap::<S>());
+                        }
+                        if sink.n >= 3 {
+                            seen_match = true;
+                        }
+                        if let (Some(fail), false) = (ks, inv && straddle) {
+                            let mut k = 0;
+                            while k + 1 < want.n {
+                                let mut sink = RecSink::new(S::HAY);
+                                sink.ctl = true;
+                                if fail {
+                                    sink.fail_at = k;
+                                } else {
+                                    sink.stop_at = k;
+                                }
+                                let r = MultiLine::new(&searcher, &matcher, S::HAY, &mut sink).run();
+                                check_interrupted::<S>(&sink, &want, r.is_err(), k, fail);
+                                k += 1;
+                            }
+                        }
+                        c += 1;
+                    }
+                }
+                var += 1;
+            }
+        }
+        t += 1;
+    }
+    kani::cover!(seen_match, "reach-end");
     std::mem::forget(searcher);
 }
 
-/// look-behind-free patterns (E0 == E); contexts A,B in 0..=1, invert, numbers
+/// look-behind-free patterns: every span table (<= 3 bytes) / every table with
+/// at most 2 match starts (4..5 bytes)
 pub(crate) fn c13_multiline<S: Shape>() {
-    let mut cfg = any_cfg(1);
-    cfg.stop_nm = false;
-    cfg.passthru = false;
-    c13_body::<S>(cfg, false)
+    c13_enum::<S>(if S::HAY.len() <= 3 { MAXN } else { 2 }, false, None)
 }
 
-/// passthru on
-pub(crate) fn c13_multiline_passthru<S: Shape>() {
-    let mut cfg = any_cfg(0);
-    cfg.stop_nm = false;
-    cfg.passthru = true;
-    c13_body::<S>(cfg, false)
-}
-
-/// patterns WITH look-behind: what the pattern matches at a resumption point
-/// taken as start-of-haystack (E0) is unconstrained; the property demands the
-/// whole-input answer (E).
+/// patterns WITH look-behind: additionally every alternative answer at a
+/// resumption point taken as start-of-haystack; the property demands the
+/// whole-input answer
 pub(crate) fn c13_multiline_lookbehind<S: Shape>() {
-    let mut cfg = any_cfg(0);
-    cfg.stop_nm = false;
-    cfg.passthru = false;
-    cfg.invert = false;
-    c13_body::<S>(cfg, true)
+    c13_enum::<S>(if S::HAY.len() <= 2 { MAXN } else { 1 }, true, None)
+}
+
+/// C16 for the multi-line strategy: stop at every sink call
+pub(crate) fn c16_multiline_refuse<S: Shape>() {
+    c13_enum::<S>(if S::HAY.len() <= 2 { MAXN } else { 2 }, false, Some(false))
+}
+
+/// C16 for the multi-line strategy: sink error at every sink call
+pub(crate) fn c16_multiline_error<S: Shape>() {
+    c13_enum::<S>(if S::HAY.len() <= 2 { MAXN } else { 1 }, false, Some(true))
 }
